@@ -113,7 +113,17 @@ def compare_docs(a, b, M, label_of, thr, kls, texts, dec=False):
         if ca.stem != cb.stem:
             viol.append("%s: IRI stem %r vs %r" % (lab, ca.stem, cb.stem))
         if set(ca.cons) != set(cb.cons):
-            viol.append("%s: keys differ: %s" % (lab, sorted(set(ca.cons) ^ set(cb.cons))))
+            # C02-GONEREF under a tie: two references are tied, the first seen wins (C09-HIDDENFACTS), and in ONE of the runs the
+            # winner is a reference to a shape that is not in that run's document - the constraint is dropped with it instead of
+            # falling back to IRI.  Excused only when every differing key is non-literal, tied, and has that signature in the
+            # document that lacks it.
+            S_ = lab2S.get(lab)
+            diff = set(ca.cons) ^ set(cb.cons)
+            if S_ is not None and all(k_[1] == ("nonliteral",) and M.has_tie(S_, k_[0], thr, kls)
+                                      and oracle._goneref_sig(M, S_, k_[0], thr, b if k_ in ca.cons else a, label_of, kls) for k_ in diff):
+                kn.append(("C02-GONEREF", "%s: keys %s in one run only (tie between references, one of them to a removed shape)" % (lab, sorted(diff))))
+            else:
+                viol.append("%s: keys differ: %s" % (lab, sorted(diff)))
             continue
         fa = oracle.fact_map(ca, dec)
         fb = oracle.fact_map(cb, dec)
